@@ -16,6 +16,7 @@ import Babylon.Exec.InvAll
 import Babylon.Exec.NoStuck
 import Babylon.Exec.SimpleLemmas
 import Babylon.Exec.SimpleOnce
+import Babylon.Exec.View
 import Babylon.Gen.Exec
 
 namespace Babylon.Properties.C07
@@ -620,5 +621,42 @@ example : ∃ s, Simple.ReachN s ∧ s.joinReturned = true ∧ s.preJoin 0 = tru
     rw [hs] at h
     simp only [Option.map_some, Option.some.injEq, Bool.and_eq_true, decide_eq_true_eq] at h
     exact ⟨s, reach_runN demoRunN (Reachable.base rfl) hs, h.1.1.1.1.1, h.1.1.1.1.2, h.1.1.1.2, h.1.1.2, h.1.2, h.2⟩
+
+/-! ## View level: what the queue slot and the promise hand over (release/acquire view model) -/
+
+open Babylon.Core.MemView in
+/-- **exec_task_view.**  The submitter writes the task's state, then its push completes with a releasing
+store on the slot word (`oPush.releases`); the worker's pop acquire-loads that message (`oPop.acquires`)
+and runs the task: in every execution of the view model — any actions of any threads in between
+(`Mem.Ext`), any admissible stale message — every read of the task state by the running task returns
+the submitter's message or a later one.  (`Exec.View.exec_task_view_rmw`: the same for a push completed
+by a releasing RMW; `Exec.View.task_controls`: with a relaxed push or pop the stale read IS admissible.) -/
+theorem exec_task_view (m : Mem Exec.View.Loc) (sub wrk k : Nat) (oPush oPop od oD : Core.Ord) (v x : Nat)
+    {m1 m2 m3 m4 m5 : Mem Exec.View.Loc} {x' v' ts : Nat}
+    (hpush : oPush.releases = true) (hpop : oPop.acquires = true)
+    (hstate : (m.write sub (.state k) od v).Ext m1)
+    (hpushed : (m1.write sub .slot oPush x).Ext m2)
+    (hpopped : m2.read wrk .slot oPop (m1.len .slot) = some (m3, x'))
+    (hrun : m3.Ext m4)
+    (hread : m4.read wrk (.state k) oD ts = some (m5, v')) :
+    m.len (.state k) ≤ ts :=
+  Exec.View.exec_task_view m sub wrk k oPush oPop od oD v x hpush hpop hstate hpushed hpopped hrun hread
+
+open Babylon.Core.MemView in
+/-- **exec_result_view.**  The task writes its result, the promise publishes with its releasing exchange
+on the future's state word (the generated `ordFutexXchg` of C08; `Exec.View.future_ords_ok` also covers
+`ordSeal`), the thread returning from `future.get()` has acquire-loaded that message (`ordGetLoad`):
+every later read of the result by that thread returns the task's write or a later one
+(`Exec.View.exec_result_view` for arbitrary orders with `.releases` / `.acquires` hypotheses,
+`Exec.View.result_controls` for the negative controls). -/
+theorem exec_result_view (m : Mem Exec.View.Loc) (wrk getter k : Nat) (od oD : Core.Ord) (v : Nat) (f : Nat → Nat)
+    {m1 m2 m2' m3 m4 m5 : Mem Exec.View.Loc} {old x' v' ts : Nat}
+    (hres : (m.write wrk (.result k) od v).Ext m1)
+    (hpub : m1.rmw wrk .fut Gen.Future.ordFutexXchg f = some (m2', old)) (hthen : m2'.Ext m2)
+    (hgot : m2.read getter .fut Gen.Future.ordGetLoad (m1.len .fut) = some (m3, x'))
+    (hafter : m3.Ext m4)
+    (hread : m4.read getter (.result k) oD ts = some (m5, v')) :
+    m.len (.result k) ≤ ts :=
+  Exec.View.exec_result_view_code m wrk getter k od oD v f hres hpub hthen hgot hafter hread
 
 end Babylon.Properties.C07
